@@ -138,6 +138,9 @@ pub enum G {
     /// `a.map(items).into_iter()` used as an IterParser: code 0 = collect::<Vec>, 1 = count,
     /// 2 + n = collect_exactly::<[_; n]> (n in 0..=4)
     IntoIter(Box<G>, u8),
+    /// one or two item sources joined by `then` and consumed as ONE IterParser: parts are `Rep` (plain bounds,
+    /// Sink::Vec), `OrNot` or `IntoIter(_, 0)` nodes; sink code 0 = collect::<Vec>, 1 = count
+    IterThen(Vec<G>, u8),
     // ---- errors
     Validate(Box<G>, u32, u8),
     Recover(Box<G>, Strat),
@@ -178,7 +181,7 @@ impl G {
             | Ext { .. } | RecRef(_) | JustCfg(_) => vec![],
             Then(a, c) | IgnoreThen(a, c) | ThenIgnore(a, c) | Or(a, c) | AndIs(a, c)
             | PaddedBy(a, c) | ThenWithCtx(a, c) | IgnoreWithCtx(a, c) => vec![a, c],
-            Group(v) | GroupArr(v) | Choice(v) | ChoiceVec(v) | ChoiceArr(v) => v.iter().collect(),
+            Group(v) | GroupArr(v) | Choice(v) | ChoiceVec(v) | ChoiceArr(v) | IterThen(v, _) => v.iter().collect(),
             OrNot(a) | Not(a) | Rewind(a) | Map(a, _) | To(a, _) | Ignored(a) | Filter(a, _)
             | TryMap(a, _, _) | TryMapWith(a, _, _) | ToSlice(a) | ToSpan(a) | MapSpan(a)
             | MapSlice(a) | Unwrapped(a) | IntoIter(a, _) | Validate(a, _, _) | Labelled(a, _, _)
@@ -221,7 +224,7 @@ impl G {
             | Ext { .. } | RecRef(_) | JustCfg(_) => vec![],
             Then(a, c) | IgnoreThen(a, c) | ThenIgnore(a, c) | Or(a, c) | AndIs(a, c)
             | PaddedBy(a, c) | ThenWithCtx(a, c) | IgnoreWithCtx(a, c) => vec![a, c],
-            Group(v) | GroupArr(v) | Choice(v) | ChoiceVec(v) | ChoiceArr(v) => {
+            Group(v) | GroupArr(v) | Choice(v) | ChoiceVec(v) | ChoiceArr(v) | IterThen(v, _) => {
                 v.iter_mut().collect()
             }
             OrNot(a) | Not(a) | Rewind(a) | Map(a, _) | To(a, _) | Ignored(a) | Filter(a, _)
@@ -323,7 +326,7 @@ impl G {
             Custom { take, .. } | Ext { take, .. } => *take >= 1,
             Then(a, c) | IgnoreThen(a, c) | ThenIgnore(a, c) | PaddedBy(a, c)
             | ThenWithCtx(a, c) | IgnoreWithCtx(a, c) => a.must_consume() || c.must_consume(),
-            Group(v) | GroupArr(v) => v.iter().any(|g| g.must_consume()),
+            Group(v) | GroupArr(v) | IterThen(v, _) => v.iter().any(|g| g.must_consume()),
             Or(a, c) => a.must_consume() && c.must_consume(),
             Choice(v) | ChoiceVec(v) | ChoiceArr(v) => {
                 !v.is_empty() && v.iter().all(|g| g.must_consume())
@@ -427,6 +430,7 @@ pub fn render(g: &G) -> String {
             1 => format!("{}.map(items).into_iter().count()", r(a)),
             n => format!("{}.map(items).into_iter().collect_exactly::<[_;{}]>()", r(a), n - 2),
         },
+        IterThen(v, k) => format!("{}.{}", v.iter().map(|x| format!("[{}]", render(x))).collect::<Vec<_>>().join(".then"), if *k == 0 { "collect::<Vec>() [as one IterParser]" } else { "count() [as one IterParser]" }),
         Rep(x) => {
             let mut s = match &x.sep {
                 None => format!("{}.repeated()", r(&x.item)),
@@ -567,6 +571,17 @@ pub fn wf(g: &G) -> bool {
                 go(a, recs, guarded)
             }
             IntoIter(a, k) => *k <= 6 && go(a, recs, guarded),
+            IterThen(v, k) => {
+                *k <= 1
+                    && (1..=2).contains(&v.len())
+                    && v.iter().all(|x| match x {
+                        Rep(r) => matches!(r.sink, Sink::Vec) && !r.cfg && r.ctxb == 0,
+                        OrNot(_) => true,
+                        IntoIter(_, 0) => true,
+                        _ => false,
+                    })
+                    && seq(&v.iter().collect::<Vec<_>>(), recs, guarded)
+            }
             // the group token is consumed before the inner parser starts (on the group's children)
             NestedIn(a) => go(a, recs, true),
             Rep(r) => {
